@@ -100,7 +100,7 @@ TIE_PROPS = {"C19": ["Proofs/SrcTieLevel.v"], "C14": ["Proofs/SrcTieTables.v"], 
 # the function's whole (finite) domain and is therefore a complete tie on its own
 TIE_FALLBACK_EXHAUSTIVE = {"C14", "C15"}
 
-def stage_translate(tmp):
+def stage_translate(tmp, exclude=()):
     """rs2v (syn-based translator: data + small pure functions) on /repo's working tree; the older regex
     translator gen_tables.py is kept as an independent cross-check of the data part.
     Returns dict(ok, report, problems[], notes[])."""
@@ -113,7 +113,7 @@ def stage_translate(tmp):
     if rc == 0 and os.path.exists(rs2v):
         d = os.path.join(tmp, "rs2v"); os.makedirs(d, exist_ok=True)
         for f in os.listdir(d): os.remove(os.path.join(d, f))
-        rc, out, _ = sh([rs2v, REPO, d])
+        rc, out, _ = sh([rs2v, REPO, d], env=dict(ENV, RS2V_EXCLUDE=",".join(exclude)))
         try:
             report = json.load(open(os.path.join(d, "rs2v_report.json")))
         except Exception:
@@ -182,6 +182,25 @@ def stage_coq():
     log("building the Coq development")
     sh("coq_makefile -f _CoqProject -o Makefile", cwd=COQ)
     rc, out, dt = sh("timeout 3000 make -k -j%d 2>&1" % NPROC, cwd=COQ, timeout=3100)
+    # a translated function whose Gallina term does not type-check must not take the other ties down with it:
+    # find the definition the error is in, exclude that function, translate again (a few rounds at most)
+    excluded = []
+    for _round in range(6):
+        m = re.search(r'File "\./SrcGen\.v", line (\d+)', out)
+        if not m: break
+        lines = open(os.path.join(COQ, "SrcGen.v")).read().split("\n")
+        name = None
+        for ln in range(min(int(m.group(1)), len(lines)) - 1, -1, -1):
+            mm = re.match(r"\(\* (\S+?)(?:  \[flow mode\])? \*\)$", lines[ln])
+            if mm: name = mm.group(1); break
+        if not name or name in excluded: break
+        excluded.append(name)
+        log("SrcGen.v: the term translated from %s does not type-check; excluding it" % name)
+        tr = stage_translate(tmp, exclude=excluded)
+        rc, out2, dt2 = sh("timeout 3000 make -k -j%d 2>&1" % NPROC, cwd=COQ, timeout=3100)
+        out = out2; dt += dt2
+    if excluded:
+        tr.setdefault("notes", []).append("translated terms that did not type-check and were excluded: " + ", ".join(excluded))
     failed = re.findall(r"\*\*\* \[[^\]]*?([A-Za-z0-9_/]+)\.vo\]", out)
     # a file that failed keeps its previous .vo, and make does not rebuild its dependents: remove those stale
     # objects so that nothing downstream of a broken proof can pass as "compiled"
@@ -459,6 +478,28 @@ def proof_status(prop, coq):
             "theorems": thms, "files": files, "problems": problems, "full": bool(idx.get("full")), "tie": tie,
             "statement": idx.get("statement", ""), "partial_note": idx.get("partial_note", "")}
 
+def coqchk_status(prop, coq):
+    """thorough tier: re-check the compiled closure of the property's theorem files with the independent
+    checker coqchk and read the axioms it reports.  Cached per (development key, property)."""
+    idx = props_index().get(prop)
+    if not idx: return {"ran": False}
+    d = os.path.join(CACHE, "coqchk"); os.makedirs(d, exist_ok=True)
+    cp = os.path.join(d, "%s-%s.json" % (prop, (coq.get("key") or "nokey")[:24]))
+    if os.path.exists(cp):
+        return json.load(open(cp))
+    mods = ["BidiVerif." + f[:-2].replace("/", ".") for f in [idx["file"]] + idx.get("extra_files", []) + TIE_PROPS.get(prop, [])
+            if os.path.exists(os.path.join(COQ, f + "o"))]
+    t0 = time.time()
+    try:
+        rc, out, dt = sh("timeout 3000 coqchk -o -silent -Q . BidiVerif %s 2>&1" % " ".join(mods), cwd=COQ, timeout=3100)
+    except subprocess.TimeoutExpired:
+        rc, out, dt = 124, "timeout", time.time() - t0
+    m = re.search(r"\* Axioms:(.*?)\n\s*\n\* Constants", out, re.S)
+    axioms = m.group(1).strip() if m else None
+    st = {"ran": True, "rc": rc, "modules": mods, "axioms": axioms, "wall_s": dt, "tail": out[-600:] if rc != 0 else ""}
+    if rc in (0,): json.dump(st, open(cp, "w"))
+    return st
+
 # ---------------------------------------------------------------------------------------------
 def known_findings():
     fixed, findings = [], []
@@ -603,6 +644,12 @@ def decide_from_corr(prop, tier, seed):
             return infra_violation(prop, "harness does not build against /repo (public API changed?)", har["log"], tier, seed, t0)
         d = stage_corr(seed, tier, har["bin"])
         ps = proof_status(prop, coq)
+        chk = coqchk_status(prop, coq) if tier == "thorough" else {"ran": False}
+    if chk.get("ran"):
+        if chk["rc"] == 0 and chk["axioms"] not in ("<none>",):
+            ps["problems"].append("coqchk reports axioms: %s" % chk["axioms"]); ps["ok"] = False
+        elif chk["rc"] not in (0, 124):
+            ps["problems"].append("coqchk failed: " + chk.get("tail", "")[-200:]); ps["ok"] = False
     meta = json.load(open(os.path.join(d, "meta.json")))
     verdicts = load_verdicts(d)
     kinds = KINDS.get(prop, ("T",))
@@ -641,6 +688,7 @@ def decide_from_corr(prop, tier, seed):
         "proof_problems": ps["problems"],
         "theorem_statement": ps.get("statement", ""),
         "source_translation": ps.get("tie", {}),
+        "coqchk": {k: chk.get(k) for k in ("ran", "rc", "axioms", "wall_s", "modules")},
     }
     rc = 0
     if violations or not ps["ok"]:
@@ -725,6 +773,12 @@ def decide_dump(prop, tier, seed, mode, keep, what):
             if not hr["ok"]: return infra_violation(prop, "harness release build", hr["log"], tier, seed, t0)
             hars.append(("release", hr))
         ps = proof_status(prop, coq)
+        chk = coqchk_status(prop, coq) if tier == "thorough" else {"ran": False}
+    if chk.get("ran"):
+        if chk["rc"] == 0 and chk["axioms"] not in ("<none>",):
+            ps["problems"].append("coqchk reports axioms: %s" % chk["axioms"]); ps["ok"] = False
+        elif chk["rc"] not in (0, 124):
+            ps["problems"].append("coqchk failed: " + chk.get("tail", "")[-200:]); ps["ok"] = False
     rc, model, _ = sh([os.path.join(CACHE, "ocaml", "driver"), mode])
     model = "\n".join(l for l in model.splitlines() if keep(l))
     problems, n_impl = [], 0
@@ -747,7 +801,8 @@ def decide_dump(prop, tier, seed, mode, keep, what):
                             "harness (exhaustive dump through the public API)"] + ["%s: %s" % (t, a.replace("\n", " ")) for t, a in ps["theorems"].items()],
            "explanation": "Exhaustive tie: %s. Theorems: %s. %s" % (what, ", ".join(ps["theorems"].keys()) or "none yet", ps.get("partial_note", "")),
            "proof_problems": ps["problems"], "theorem_statement": ps.get("statement", ""),
-           "source_translation": ps.get("tie", {})}
+           "source_translation": ps.get("tie", {}),
+           "coqchk": {k: chk.get(k) for k in ("ran", "rc", "axioms", "wall_s", "modules")}}
     if viol:
         concrete = problems + extra
         rp = write_replay(prop, "input" if concrete else "broken",
